@@ -73,9 +73,12 @@ def run_seed_for(verif_seed, pid, tier, idx):
     return derive_seed(verif_seed, pid, idx)
 
 
-def execute(mod, seed=None, tape=None, labels=False, run_cap=60):
+def execute(mod, seed=None, tape=None, labels=False, run_cap=60, idx=None):
     """Run one case.  Returns (RunResult, Chooser)."""
-    ch = Chooser(seed=seed, tape=tape, record_labels=labels)
+    forced = None
+    if tape is None and idx is not None and hasattr(mod, "forced_prefix"):
+        forced = mod.forced_prefix(idx)
+    ch = Chooser(seed=seed, tape=tape, record_labels=labels, forced=forced)
     signal.signal(signal.SIGALRM, _alarm)
     signal.alarm(run_cap)
     try:
@@ -104,7 +107,7 @@ def _worker_chunk(args):
     for idx in indices:
         seed = run_seed_for(verif_seed, pid, tier, idx)
         try:
-            res, ch = execute(mod, seed=seed, run_cap=run_cap)
+            res, ch = execute(mod, seed=seed, run_cap=run_cap, idx=idx)
         except BaseException as e:  # noqa
             if isinstance(e, (KeyboardInterrupt, SystemExit)):
                 raise
@@ -242,6 +245,7 @@ def write_replay(pid, key, verif_seed, idx, seed, tape, msg, details, mod, shrun
     doc = {
         "property": pid, "violation_key": key, "verif_seed": verif_seed,
         "run_index": idx, "run_seed": seed,
+        "tier": os.environ.get("VERIF_TIER_EFFECTIVE", "quick"),
         "message": v.msg if v else msg,
         "details": _jsonable(v.details if v else details),
         "tape": ch.tape[:ch.pos], "labels": ch.labels[:ch.pos],
@@ -275,6 +279,7 @@ def cmd_replay(path):
     with open(path) as f:
         doc = json.load(f)
     pid = doc["property"]
+    os.environ["VERIF_TIER_EFFECTIVE"] = doc.get("tier", "quick")
     print(f"REPLAY property={pid} key={doc['violation_key']} file={path}")
     mod = load_prop(pid)
     try:
@@ -308,6 +313,13 @@ def cmd_check(pid, tier, runs_override=None, workers=None, verbose=True):
     pid = pid.upper()
     print(f"VERIF_SEED={verif_seed} property={pid} tier={tier}", flush=True)
     sys.path.insert(0, VERIF)
+    os.environ["VERIF_TIER_EFFECTIVE"] = tier
+    import glob
+    for old in glob.glob(os.path.join(REPLAYS, f"{pid}-*.json")):
+        try:
+            os.remove(old)      # replay files of earlier runs of this check are stale
+        except OSError:
+            pass
     mod = load_prop(pid)
     total = runs_override or mod.TIERS[tier]
     run_cap = getattr(mod, "RUN_CAP_S", 60)
